@@ -61,6 +61,7 @@ func runC12(c *Ctx, r *Report) {
 	r.Rule("R12.7", "restructuring verbs order fields with stable sorts only: every sort call in the C12 verb files is a stable sort or a sort of plain strings (whose ties are identical); an unstable sort of fields that tie (cut -r -o: fields matching the same regex) would change their relative order in wide records")
 	checkStableSorts(c, r, "R12.7", c12VerbFiles, 3)
 	c12RegexSplice(c, r)
+	c12PerFieldLoops(c, r)
 }
 
 func c12Ownership(c *Ctx, r *Report) {
@@ -1007,4 +1008,108 @@ func c12RegexSplice(c *Ctx, r *Report) {
 	}
 	r.OK("R12.8", "pattern compilations in the verbs", "", fmt.Sprintf("%d compilations, %d of them of a spliced pattern", n, nsplice))
 	r.Floor("R12.8", "pattern compilations in the verbs", n, 8)
+}
+
+// c12PerFieldLoops (R12.9): a verb treats every field it was given.
+func c12PerFieldLoops(c *Ctx, r *Report) {
+	r.Rule("R12.9", "a verb treats every field it was given: in the verbs, a loop that ranges over a list of field names held in the verb's state (a []string field of the receiver) and changes the record in its body (puts, removes, renames, stores a value) is left only by its own end or by a return — not by a break on one field's condition, which would leave the fields named after it untreated (sec2gmt -f a,b with a non-numeric a must still convert b)")
+	n := 0
+	for _, fn := range c.ModuleFunctions() {
+		if fn.Blocks == nil || fn.Pkg == nil || !strings.HasSuffix(fn.Pkg.Pkg.Path(), "/pkg/transformers") || fn.Signature.Recv() == nil || len(fn.Params) == 0 {
+			continue
+		}
+		// loop headers: blocks with a len(load recv.field []string) compare, in a cycle
+		idx := 0
+		for _, h := range fn.Blocks {
+			if !blockReachesSelf(h) {
+				continue
+			}
+			iff, ok := h.Instrs[len(h.Instrs)-1].(*ssa.If)
+			if !ok {
+				continue
+			}
+			cmp, ok := iff.Cond.(*ssa.BinOp)
+			if !ok || cmp.Op != token.LSS {
+				continue
+			}
+			ln, ok := cmp.Y.(*ssa.Call)
+			if !ok {
+				continue
+			}
+			if bi, ok := ln.Call.Value.(*ssa.Builtin); !ok || bi.Name() != "len" {
+				continue
+			}
+			base, fname, ok := fieldLoadName(ln.Call.Args[0])
+			if !ok || base != ssa.Value(fn.Params[0]) {
+				continue
+			}
+			if !isStrSliceT(ln.Call.Args[0].Type()) || !strings.Contains(strings.ToLower(fname), "field") {
+				continue
+			}
+			idx++
+			n++
+			// loop body = blocks reachable from the body successor that reach h
+			// the natural loop of h: h and everything that reaches one of its back edges without passing h
+			inLoop := map[*ssa.BasicBlock]bool{h: true}
+			var work []*ssa.BasicBlock
+			for _, p := range h.Preds {
+				if h.Dominates(p) && !inLoop[p] {
+					inLoop[p] = true
+					work = append(work, p)
+				}
+			}
+			for len(work) > 0 {
+				b := work[len(work)-1]
+				work = work[:len(work)-1]
+				for _, p := range b.Preds {
+					if !inLoop[p] {
+						inLoop[p] = true
+						work = append(work, p)
+					}
+				}
+			}
+			// only loops that change the record field by field (a loop that merely looks for a field may stop at the first)
+			changes := false
+			for b := range inLoop {
+				for _, in := range b.Instrs {
+					switch x := in.(type) {
+					case ssa.CallInstruction:
+						cn := CalleeName(x.Common())
+						if strings.HasPrefix(cn, "pkg/mlrval.Mlrmap.Put") || strings.HasPrefix(cn, "pkg/mlrval.Mlrmap.Remove") || strings.HasPrefix(cn, "pkg/mlrval.Mlrmap.Rename") || strings.HasPrefix(cn, "pkg/mlrval.Mlrmap.Prepend") {
+							changes = true
+						}
+					case *ssa.Store:
+						if _, name, ok := fieldAddrName(x.Addr); ok && name == "Value" && strings.HasSuffix(x.Addr.(*ssa.FieldAddr).X.Type().String(), "mlrval.MlrmapEntry") {
+							changes = true
+						}
+					}
+				}
+			}
+			if !changes {
+				n--
+				idx--
+				continue
+			}
+			bad := ""
+			for b := range inLoop {
+				if b == h {
+					continue
+				}
+				for _, s := range b.Succs {
+					if inLoop[s] {
+						continue
+					}
+					// leaves the loop from inside the body: a return (an error, or the verb is done with the record) is
+					// fine; going on with the rest of the function is a break
+					if _, isRet := s.Instrs[len(s.Instrs)-1].(*ssa.Return); isRet && len(s.Instrs) <= 3 {
+						continue
+					}
+					bad = c.Rel(b.Instrs[len(b.Instrs)-1].Pos())
+				}
+			}
+			r.Check(bad == "", "R12.9", fmt.Sprintf("%s: loop over %s #%d", SSAName(fn), fname, idx), c.Rel(iff.Pos()), "left only by its own end or an error return",
+				fmt.Sprintf("%s leaves its loop over the verb's %s from inside the body (near %s) other than by an error return: the fields named after the current one are not treated for this record", SSAName(fn), fname, bad))
+		}
+	}
+	r.Floor("R12.9", "record-changing loops over the verb's field-name lists", n, 8)
 }
